@@ -26,6 +26,16 @@ type Path struct {
 	StackC  []*ssa.Call     // the calls being inlined (parallel to Stack)
 	Inlined []*ssa.Call     // calls that were replaced by the callee's paths
 	Calls   []pathCall      // every call on the path with its argument keys as they were at that point
+	Updates []pathUpdate    // every map update on the path with key and value as they were at that point
+}
+
+// pathUpdate: m[k] = v met on the path, with k and v resolved under the environment in force then (a loop
+// that was unrolled executes the same instruction with different values).
+type pathUpdate struct {
+	Instr   *ssa.MapUpdate
+	Key     ssa.Value
+	Val     ssa.Value
+	ValArgs []ssa.Value // if Val is a call: its arguments, resolved
 }
 
 // pathCall: a call instruction met on the path; Args are the keys of its arguments under the
@@ -102,6 +112,7 @@ func (p *Path) fork() *Path {
 	n.StackC = append([]*ssa.Call(nil), p.StackC...)
 	n.Inlined = append([]*ssa.Call(nil), p.Inlined...)
 	n.Calls = append([]pathCall(nil), p.Calls...)
+	n.Updates = append([]pathUpdate(nil), p.Updates...)
 	return n
 }
 
@@ -194,6 +205,14 @@ func (w *pathWalker) run(b *ssa.BasicBlock, start int, p *Path, on map[*ssa.Basi
 		in := b.Instrs[i]
 		p.Instrs = append(p.Instrs, in)
 		switch x := in.(type) {
+		case *ssa.MapUpdate:
+			pu := pathUpdate{Instr: x, Key: w.c.resolve(x.Key, p.Env), Val: w.c.resolve(x.Value, p.Env)}
+			if call, ok := pu.Val.(*ssa.Call); ok {
+				for _, a := range call.Call.Args {
+					pu.ValArgs = append(pu.ValArgs, w.c.resolve(a, p.Env))
+				}
+			}
+			p.Updates = append(p.Updates, pu)
 		case *ssa.Store:
 			if a, ok := x.Addr.(*ssa.Alloc); ok {
 				v, e2 := w.c.resolveE(x.Val, p.Env)
